@@ -549,7 +549,7 @@ func main() {
 	r := cfg.Rand
 	scale := 1
 	if cfg.Thorough() {
-		scale = 25
+		scale = 12
 	}
 	randScript := func(maxk int) [][2]int {
 		s := make([][2]int, r.Intn(5))
